@@ -22,8 +22,9 @@ func init() {
 }
 
 type purity struct {
-	c    *core.Ctx
-	memo map[*ssa.Function]int // 1 pure, 2 impure
+	c          *core.Ctx
+	memo       map[*ssa.Function]int // 1 pure, 2 impure
+	allowReads bool                  // side-effect freedom only: reading caller-visible memory is fine
 }
 
 func (p *purity) pure(fn *ssa.Function, depth int) bool {
@@ -90,7 +91,7 @@ func (p *purity) pure(fn *ssa.Function, depth int) bool {
 				ok = false
 			}
 		case *ssa.UnOp:
-			if x.Op == token.MUL && !localAddr(x.X) {
+			if x.Op == token.MUL && !localAddr(x.X) && !p.allowReads {
 				// reads of globals/heap make the result depend on state; package-level tables are immutable (R-GLOBAL), allow globals
 				if !globalAddr(x.X) {
 					if os.Getenv("S2LINT_DEBUG") != "" {
